@@ -42,4 +42,46 @@ PROPERTIES = {
             part("C20.threshold", shards={"quick": 12, "thorough": 16}, floor=20),
         ],
     },
+    "C19": {
+        "level": "exploration",
+        "level_text": "model-based monitoring of the real Bitfield / Multi signer lists against an ideal set: exhaustive for all byte strings of length <= 2 and all "
+                      "Add sequences of length <= 4 over boundary ids, all subset pairs for n=4 signer lists, seeded random beyond",
+        "level_note": "ideal set = Go map; id 0 is outside the stated domain and not exercised here",
+        "technique": "reference-model monitor (ideal set) over exhaustive-small and random operation sequences",
+        "exhaustive": True,
+        "rule": "C19: participant sets vs ideal set",
+        "anchors": ["security/crypto/bitfield.go", "security/crypto/multisignature.go", "security/crypto/bls12.go",
+                    "security/crypto/ecdsa.go", "security/crypto/eddsa.go"],
+        "parts": [
+            part("C19.bitfield", shards={"quick": 4, "thorough": 16}, floor=500),
+            part("C19.frombytes", shards={"quick": 2, "thorough": 8}, floor=500),
+            part("C19.multi", shards={"quick": 6, "thorough": 6}, floor=100),
+        ],
+    },
+    "C17": {
+        "level": "exploration",
+        "level_text": "every replica's real tree.Tree for the same assignment is assembled into one graph and checked for single-rooted consistency from every vantage "
+                      "point; all permutations for n <= 6, seeded random permutations for n <= 40, bf 2..6",
+        "level_note": "the reference shape is assembled from the replicas' own Parent/Children reports, not recomputed from positions",
+        "technique": "structural-invariant monitor over enumerated configurations",
+        "exhaustive": True,
+        "rule": "C17: tree consistency",
+        "anchors": ["internal/tree/tree.go", "internal/tree/shuffle.go", "protocol/leaderrotation/treeleader.go"],
+        "parts": [part("C17.tree", shards={"quick": 8, "thorough": 16}, floor=1000)],
+    },
+    "C16": {
+        "level": "exploration",
+        "level_text": "stateless schemes: exhaustive n=1..64 x views 0..4096 and windows at 2^32, 2^63, 2^64-1 on two independently configured replicas; "
+                      "history-based schemes: two instances fed identical generated commit/query histories must agree, active carousel answers checked against the "
+                      "statement's eligibility rule",
+        "level_note": "QCs in generated chains carry arbitrary signer lists >= q (leader rotation never verifies them)",
+        "technique": "differential monitor (two replicas, same history) + invariant on answers",
+        "exhaustive": True,
+        "rule": "C16: leader agreement",
+        "anchors": ["protocol/leaderrotation/"],
+        "parts": [
+            part("C16.stateless", shards={"quick": 8, "thorough": 16}, floor=100),
+            part("C16.history", shards={"quick": 8, "thorough": 16}, floor=200),
+        ],
+    },
 }
